@@ -9,10 +9,12 @@ NAMES=${@:-$(ls seeded)}
 CHECKS=$(python3 -c "import json;print(' '.join(c['property_id'] for c in json.load(open('/verif/MANIFEST.json'))['checks']))")
 SNAP=$(mktemp -d ${TMPDIR:-/var/tmp}/verif-snap.XXXXXX)
 rsync -a --exclude .git --exclude out --exclude evidence /verif/ $SNAP/
-trap 'rm -rf $SNAP' EXIT
+RSNAP=$(mktemp -d ${TMPDIR:-/var/tmp}/verif-rsnap.XXXXXX)   # /repo as it is now: later hook commits must not mix with the /verif snapshot
+rsync -a --exclude .git /repo/ $RSNAP/
+trap 'rm -rf $SNAP $RSNAP' EXIT
 for n in $NAMES; do
   S=$(mktemp -d ${TMPDIR:-/var/tmp}/verif-seed.XXXXXX)
-  rsync -a --exclude .git /repo/ $S/
+  rsync -a $RSNAP/ $S/
   (cd $S && git init -q . && git apply /verif/seeded/$n/patch.diff) || { echo "$n: PATCH DOES NOT APPLY"; rm -rf $S; continue; }
   : > seeded/$n/RESULT.txt
   RAISED=""; UNDEC=""
